@@ -269,8 +269,7 @@ func runC06(r *Run) {
 				case 1:
 					in = c06In{Kind: "cam", Key: key, Pred: c06Preds(d, "q"), TrueM: gen.mutations(d, 2, true), FalseM: gen.mutations(d, 2, true)}
 				case 2:
-					sub := &draws{v: d.v[d.i : d.i+4]}
-					d.i += 4
+					sub := d.sub(4)
 					rule := &btpb.ReadModifyWriteRule{FamilyName: []string{"f1", "f1", "f2", "nofam"}[sub.n(4)], ColumnQualifier: []byte([]string{"c", "q"}[sub.n(2)])}
 					if sub.n(3) == 0 {
 						rule.Rule = &btpb.ReadModifyWriteRule_AppendValue{AppendValue: []byte(uniq())}
